@@ -109,6 +109,8 @@ def cases(tier, seed):
             name, files = rnd.choice(bases)
             path = rnd.choice(sorted(files))
             ms = list(L.mutants_of(files[path], seed=rnd.randrange(1 << 30), per_kind=3))
+            if not ms:
+                continue
             how1, t1 = rnd.choice(ms)
             ms2 = list(L.mutants_of(t1, seed=rnd.randrange(1 << 30), per_kind=2))
             if not ms2:
